@@ -238,6 +238,8 @@ def walk_under(fn_node, decide):
             return out
         if isinstance(e, ast.Constant):
             return [(env, bool(e.value))]
+        if isinstance(e, ast.Call) and isinstance(e.func, ast.Name) and e.func.id == "bool" and len(e.args) == 1 and not e.keywords:
+            return truth(e.args[0], env)      # bool(X) is true exactly when X is
         env = note(e, env)
         t, neg = canon(e)
         if t in env:
